@@ -8,7 +8,10 @@ package cmd
 // beginHandoff -> beginReloadHandoff, setReloadError/reloadError, set/clear/
 // currentPendingStagedHandoff, clearPendingRetirement, setPendingReloadMetadata,
 // takePendingRetirementDone, startControlPlaneRetirement incl. its retirement
-// goroutine and retireControlPlaneConnections on a zero control.ControlPlane,
+// goroutine, retireControlPlaneConnections, waitForControlPlaneDrain and
+// remainingReloadRetirementBudget on a control.ControlPlane that consists of the
+// production drain tracker with 0/1 live session (overlay helper
+// control.VerifC20DrainPlane; the session ends when the scheduler says so, or never),
 // finishReloadFailure, finishReloadSuccess, refreshPprofServer(port 0)),
 // clearReloadPending, releaseReloadPendingAfterRetirement (incl. its goroutine),
 // restoreRejectedReloadProgress, clearRejectedReloadProgress, notifyRunStateChange,
@@ -33,6 +36,7 @@ import (
 	"net/http"
 	"os"
 	"path/filepath"
+	"sort"
 	"strings"
 	"sync"
 	"syscall"
@@ -73,6 +77,16 @@ type c20Req struct {
 	stage    string
 	retireCh <-chan struct{}
 	outcome  string
+}
+
+// c20Retire: one run of the real startControlPlaneRetirement.
+type c20Retire struct {
+	gen      int
+	t0       time.Time
+	bound    time.Duration // what is left of reloadTotalSwitchBudget when it starts
+	live     int           // sessions of the old generation at that moment
+	waits    bool          // !abort && overlap && live > 0: the real drain wait is entered
+	finished bool
 }
 
 type c20Snap struct {
@@ -123,7 +137,12 @@ type c20Case struct {
 	mDone           chan struct{}
 	wg              sync.WaitGroup
 
+	retires    map[int]*c20Retire // by generation being retired (c.mu)
+	wedgeNote  string
+	sessSeq    int
+
 	hmu        sync.Mutex
+	planeGen   map[*control.ControlPlane]int
 	plane      *control.ControlPlane
 	currCancel func()
 	gen        int
@@ -492,7 +511,7 @@ func (c *c20Case) serveStage() {
 			c.hmu.Lock()
 			cur := c.plane
 			c.hmu.Unlock()
-			m.startControlPlaneRetirement(c20Log, oldC, cur, handoff.oldCancel, handoff.abortConnections, handoff.hasOverlap)
+			c.startRetirement(oldC, cur, handoff.oldCancel, handoff.abortConnections, handoff.hasOverlap)
 		}
 	}
 	if reloadErr := m.reloadError(); reloadErr == nil {
@@ -507,12 +526,108 @@ func (c *c20Case) serveStage() {
 
 // ---- mimic of the reload worker (cmd/run.go 387-659) ------------------------
 
-func (c *c20Case) gatedCancel(cancel context.CancelFunc) func() {
+// newPlane: a control plane made of the production drain tracker only (overlay
+// helper control.VerifC20DrainPlane). With a session, that session stays alive
+// until the scheduler ends it (gate "X..:session") - possibly never.
+func (c *c20Case) newPlane(withSession bool) *control.ControlPlane {
+	n := 0
+	if withSession {
+		n = 1
+	}
+	plane, release := control.VerifC20DrainPlane(n)
+	for _, rel := range release {
+		c.mu.Lock()
+		c.sessSeq++
+		id := c.sessSeq
+		c.mu.Unlock()
+		c.wg.Add(1)
+		go func(rel func()) {
+			defer c.wg.Done()
+			c.sched.yield(fmt.Sprintf("X%03d:session", id), c20Caller{role: "X"})
+			rel()
+		}(rel)
+	}
+	return plane
+}
+
+// startRetirement records what the documented bound for this retirement is and
+// calls the real startControlPlaneRetirement.
+func (c *c20Case) startRetirement(oldC, successor *control.ControlPlane, oldCancel context.CancelFunc, abort, overlap bool) {
+	m := c.m
+	m.mu.Lock()
+	reqAt := m.pendingReloadRequestedAt
+	m.mu.Unlock()
+	bound := reloadTotalSwitchBudget
+	if !reqAt.IsZero() {
+		bound -= time.Since(reqAt)
+	}
+	if bound < 0 {
+		bound = 0
+	}
+	c.hmu.Lock()
+	g := c.planeGen[oldC]
+	c.hmu.Unlock()
+	live := oldC.ActiveSessionCount()
+	info := &c20Retire{gen: g, t0: time.Now(), bound: bound, live: live, waits: !abort && overlap && live > 0}
+	c.mu.Lock()
+	c.retires[g] = info
+	switch {
+	case info.waits && bound == 0:
+		c.class("retire_live_session_budget_used_up")
+	case info.waits:
+		c.class("retire_live_session_with_budget")
+	case live > 0:
+		c.class("retire_live_session_aborted_at_once")
+	default:
+		c.class("retire_no_session")
+	}
+	c.tracef("retirement of generation %d starts: %d live session(s), abort=%v overlap=%v, budget left %v", g, live, abort, overlap, bound)
+	c.mu.Unlock()
+	m.startControlPlaneRetirement(c20Log, oldC, successor, oldCancel, abort, overlap)
+}
+
+// retirementDrained runs inside the real retirement goroutine, right after
+// retireControlPlaneConnections returned (it is the old generation's cancel func).
+func (c *c20Case) retirementDrained(g int) {
+	c.mu.Lock()
+	defer c.mu.Unlock()
+	info := c.retires[g]
+	if info == nil || info.finished {
+		return
+	}
+	info.finished = true
+	elapsed := time.Since(info.t0)
+	c.tracef("generation %d: connections retired after %v", g, elapsed)
+	if elapsed > info.bound {
+		c.violate("retirement of generation %d kept waiting for its sessions for %v although only %v of the %v switch budget was left", g, elapsed, info.bound, reloadTotalSwitchBudget)
+	}
+	switch {
+	case info.waits && elapsed == info.bound && info.bound > 0:
+		c.class("retire_forced_when_budget_ran_out")
+	case info.waits && elapsed < info.bound:
+		c.class("retire_sessions_ended_in_time")
+	}
+}
+
+func (c *c20Case) unfinishedRetirements() string { // c.mu held
+	var out []string
+	for g, info := range c.retires {
+		if !info.finished {
+			out = append(out, fmt.Sprintf("generation %d (started %v ago, %d live session(s), budget left %v)", g, time.Since(info.t0), info.live, info.bound))
+		}
+	}
+	sort.Strings(out)
+	return strings.Join(out, "; ")
+}
+
+func (c *c20Case) gatedCancel(cancel context.CancelFunc, plane *control.ControlPlane) func() {
 	c.hmu.Lock()
 	c.gen++
 	g := c.gen
+	c.planeGen[plane] = g
 	c.hmu.Unlock()
 	return func() {
+		c.retirementDrained(g)
 		if cancel != nil {
 			cancel()
 		}
@@ -524,7 +639,7 @@ func (c *c20Case) gatedCancel(cancel context.CancelFunc) func() {
 func (c *c20Case) fakeBuild(ctx context.Context, out int) (*control.ControlPlane, error) {
 	switch out & 3 {
 	case 0:
-		return &control.ControlPlane{}, nil
+		return c.newPlane(out&4 == 4), nil
 	case 1:
 		return nil, errors.New("injected: control plane build failed")
 	default:
@@ -633,7 +748,7 @@ func (c *c20Case) workerOne(req reloadRequest, who c20Caller) {
 			c.workerFail(r, "listener", reloadErr)
 			return
 		}
-		gated := c.gatedCancel(cancel)
+		gated := c.gatedCancel(cancel, newC)
 		c.hmu.Lock()
 		oldC, oldCancel := c.plane, c.currCancel
 		c.plane = newC
@@ -664,7 +779,7 @@ func (c *c20Case) workerOne(req reloadRequest, who c20Caller) {
 		// roll back to the last config; a failing rollback is log.Fatalln (process
 		// exit) and outside the property.
 		_, cancel = context.WithTimeout(context.Background(), reloadPrepareTimeout)
-		newC = &control.ControlPlane{}
+		newC = c.newPlane(false)
 		newCancel = cancel
 		c.mu.Lock()
 		c.ntFailure = true
@@ -682,7 +797,7 @@ func (c *c20Case) workerOne(req reloadRequest, who c20Caller) {
 		c.workerFail(r, "listen", reloadErr)
 		return
 	}
-	gated := c.gatedCancel(newCancel)
+	gated := c.gatedCancel(newCancel, newC)
 	c.hmu.Lock()
 	oldC, oldCancel := c.plane, c.currCancel
 	c.plane = newC
@@ -704,7 +819,7 @@ func (c *c20Case) workerOne(req reloadRequest, who c20Caller) {
 			c.class("nonstaged_finish_before_retirement_started")
 		}
 		c.mu.Unlock()
-		m.startControlPlaneRetirement(c20Log, oldC, newC, oldCancel, abortConnections, hasOverlap)
+		c.startRetirement(oldC, newC, oldCancel, abortConnections, hasOverlap)
 	}
 	m.refreshPprofServer(c20Log, &c.pprof, 0)
 	notifyRunStateChange(c.runStateChanges)
@@ -836,10 +951,11 @@ func (c *c20Case) busy() bool {
 }
 
 var c20GateOutcomes = map[string][]int{
-	// bit0 fail, bit1 port changed (non-staged path), bit2 abort, bit3 dialer overlap
-	"W:1-config":   {0, 0, 0, 8, 8, 4, 12, 2, 2, 10, 6, 1, 1},
-	"W:2-prepare":  {0, 0, 0, 0, 1, 2},
-	"W:2-build":    {0, 0, 0, 1, 2},
+	// config: bit0 fail, bit1 port changed (non-staged path), bit2 abort, bit3 dialer overlap
+	"W:1-config": {0, 8, 8, 8, 8, 8, 4, 12, 2, 10, 10, 10, 6, 1, 1},
+	// prepare/build: 0 ok, 1 fail, 2 hang; +4: the new generation has a live session
+	"W:2-prepare":  {0, 4, 4, 4, 4, 1, 2},
+	"W:2-build":    {0, 4, 4, 1, 2},
 	"W:3-listener": {0, 0, 0, 1},
 	"W:3-listen":   {0, 0, 0, 1},
 	"S:serve":      {0, 0, 0, 0, 1, 2},
@@ -856,6 +972,8 @@ func (c *c20Case) releaseStep(rt *rapid.T, p *c20Park, forceOK bool) {
 	out := 0
 	if outs, ok := c20GateOutcomes[c20GateKey(p.label)]; ok && !forceOK {
 		out = rapid.SampledFrom(outs).Draw(rt, "outcome")
+	} else if p.label == "W:1-config" {
+		out = 8 // while draining: no failure, generations overlap (so live sessions are waited for)
 	}
 	c.mu.Lock()
 	if p.who.role != "M" {
@@ -873,7 +991,7 @@ func (c *c20Case) releaseStep(rt *rapid.T, p *c20Park, forceOK bool) {
 
 // drain lets everything run to the end: gates are opened (first in label order,
 // successful outcomes), timers fire. Returns false if no quiescence is reached.
-func (c *c20Case) drain(rt *rapid.T) bool {
+func (c *c20Case) drain(rt *rapid.T, pause time.Duration) bool {
 	idle := 0
 	for i := 0; i < 2000; i++ {
 		synctest.Wait()
@@ -881,7 +999,23 @@ func (c *c20Case) drain(rt *rapid.T) bool {
 		if c.violation() != "" {
 			return true
 		}
-		if ps := c.sched.sorted(); len(ps) > 0 {
+		// sessions of the generations are never ended here: a retirement has to get
+		// done within its budget whatever they do
+		var ps []*c20Park
+		for _, p := range c.sched.sorted() {
+			if p.who.role != "X" {
+				ps = append(ps, p)
+			}
+		}
+		if len(ps) > 0 {
+			if pause > 0 && strings.HasPrefix(ps[0].label, "W:2-") {
+				// a reload whose build uses up (part of) the switch budget
+				c.mu.Lock()
+				c.foreign++
+				c.mu.Unlock()
+				time.Sleep(pause)
+				synctest.Wait()
+			}
 			c.releaseStep(rt, ps[0], true)
 			idle = 0
 			continue
@@ -934,6 +1068,8 @@ func c20RunProtocolCase(t *testing.T, rt *rapid.T, dir string) {
 		exclClear:   knownClear,
 		reqs:        map[uint64]*c20Req{},
 		classes:     map[string]bool{},
+		retires:     map[int]*c20Retire{},
+		planeGen:    map[*control.ControlPlane]int{},
 		code:        consts.ReloadDone, // written by Run once the first generation is ready
 		goodCfg:     filepath.Join(dir, "good.dae"),
 		badCfg:      filepath.Join(dir, "bad.dae"),
@@ -960,6 +1096,8 @@ func c20RunProtocolCase(t *testing.T, rt *rapid.T, dir string) {
 }
 
 func c20RunProtocolBubble(t *testing.T, rt *rapid.T, c *c20Case, nSteps int, failureP *string, wedgedP *bool) {
+	firstSession := rapid.Bool().Draw(rt, "firstSession")
+	finalPause := rapid.SampledFrom([]time.Duration{0, 0, 3 * time.Second, 11 * time.Second, 11 * time.Second}).Draw(rt, "finalPause")
 	var failure string
 	var wedged bool
 	defer func() { *failureP, *wedgedP = failure, wedged }()
@@ -974,8 +1112,8 @@ func c20RunProtocolBubble(t *testing.T, rt *rapid.T, c *c20Case, nSteps int, fai
 		c.quit = make(chan struct{})
 		c.teardown = make(chan struct{})
 		c.mDone = make(chan struct{})
-		c.plane = &control.ControlPlane{}
-		c.currCancel = c.gatedCancel(nil)
+		c.plane = c.newPlane(firstSession)
+		c.currCancel = c.gatedCancel(nil, c.plane)
 		c20SetSeams(c)
 		c.wg.Add(1)
 		go c20Worker(c)
@@ -1050,8 +1188,15 @@ func c20RunProtocolBubble(t *testing.T, rt *rapid.T, c *c20Case, nSteps int, fai
 		}
 
 		// let it settle, then the quiescent-state oracle
-		if !c.drain(rt) {
+		if !c.drain(rt, 0) {
 			wedged = true
+			c.mu.Lock()
+			c.wedgeNote = fmt.Sprintf("request in progress %s (pending=%v active=%v reloading=%v)", c.ownerNameOf(c.owner),
+				c.m.reloadPending.Load(), c.m.reloadActive.Load(), c.m.reloading.Load())
+			if u := c.unfinishedRetirements(); u != "" {
+				c.wedgeNote += "; the old generation never retired: " + u
+			}
+			c.mu.Unlock()
 			return
 		}
 		if c.violation() != "" {
@@ -1070,8 +1215,15 @@ func c20RunProtocolBubble(t *testing.T, rt *rapid.T, c *c20Case, nSteps int, fai
 			c.mu.Unlock()
 			return
 		}
-		if !c.drain(rt) {
+		if !c.drain(rt, finalPause) {
 			wedged = true
+			c.mu.Lock()
+			c.wedgeNote = fmt.Sprintf("request in progress %s (pending=%v active=%v reloading=%v)", c.ownerNameOf(c.owner),
+				c.m.reloadPending.Load(), c.m.reloadActive.Load(), c.m.reloading.Load())
+			if u := c.unfinishedRetirements(); u != "" {
+				c.wedgeNote += "; the old generation never retired: " + u
+			}
+			c.mu.Unlock()
 			return
 		}
 		c.mu.Lock()
@@ -1096,8 +1248,7 @@ func c20FinishProtocolCase(rt *rapid.T, c *c20Case, failure string, wedged bool,
 		failure = fmt.Sprintf("goroutines of the reload machinery are blocked for ever after the history (%v)", stuck)
 	}
 	if failure == "" && wedged {
-		failure = fmt.Sprintf("no quiescence: request in progress %s never finished (pending=%v active=%v reloading=%v)",
-			c.ownerNameOf(c.owner), c.m.reloadPending.Load(), c.m.reloadActive.Load(), c.m.reloading.Load())
+		failure = "no quiescence, the reload never finished: " + c.wedgeNote
 	}
 	if failure == "" {
 		failure = c.viol
